@@ -33,5 +33,5 @@ var c13Mutants2 = []core.Mutant{
 
 // c13AllMutants is the sensitivity suite of C13.
 func c13AllMutants(first []core.Mutant) []core.Mutant {
-	return append(append(append([]core.Mutant(nil), first...), c13Mutants2...), append(append(append([]core.Mutant(nil), c13Mutants5...), c13Mutants5b...), append(append([]core.Mutant(nil), c13Mutants5d...), c13Mutants5e...)...)...)
+	return append(append(c13Mutants8[:len(c13Mutants8):len(c13Mutants8)], c13Mutants8b...), append(append(append([]core.Mutant(nil), first...), c13Mutants2...), append(append(append([]core.Mutant(nil), c13Mutants5...), c13Mutants5b...), append(append([]core.Mutant(nil), c13Mutants5d...), c13Mutants5e...)...)...)...)
 }
